@@ -102,28 +102,40 @@ class ThreadWorld:
         actors = case['actors']
         restore_defaults()
         g0 = globals_digest()
-        # reference pass: every call of every actor alone, in program order, same process
-        for aid, prog in enumerate(actors):
-            self.expected[aid] = [corpus.run_call(c) for c in prog]
-        g1 = globals_digest()
-        if g1 != g0:
-            self.violate('C19.globals', 'process-global state changed by sequential calls', 'digest differs')
         seed = case.get('seed', 0)
+        threads_first = cfg.get('order') == 'threads_first'
+
+        def reference_pass():
+            # every call of every actor alone, in program order, same process
+            for aid, prog in enumerate(actors):
+                self.expected[aid] = [corpus.run_call(c) for c in prog]
+            if globals_digest() != g0:
+                self.violate('C19.globals', 'process-global state changed by sequential calls', 'digest differs')
+
+        if not threads_first:
+            reference_pass()
         k = K.Kernel(schedule=case.get('schedule'), sched_rng=K.derive_rng(seed, 'schedule'),
                      mean_budget=cfg.get('mean_budget', 200), touch_p=cfg.get('touch_p', 0.0),
                      max_decisions=2_000_000, max_lines=30_000_000)
         self.k = k
         k.on_preempt = self._on_preempt
+        k.deep_hold_at = frozenset(cfg.get('deep_hold_at', ())) if case.get('schedule') is None else ()
+        if case.get('schedule') is None and cfg.get('sweep_at') is not None:
+            k.sweep_at = cfg['sweep_at']
         try:
             for aid, prog in enumerate(actors):
                 k.spawn(self._actor, (aid, prog), label='actor%d' % aid)
             self.capped = k.run()
         finally:
             k.shutdown()
+        g_after_threads = globals_digest()
+        if threads_first:
+            # the concurrent phase met every lazily initialised path of the library cold; the
+            # sequential reference comes afterwards
+            reference_pass()
         if self.capped:
             self.violate('C19.progress', 'run hit cap %s' % self.capped, 'cap')
-        g2 = globals_digest()
-        if g2 != g0:
+        if g_after_threads != g0:
             self.violate('C19.globals', 'process-global state changed by concurrent calls', 'digest differs')
         for aid, prog in enumerate(actors):
             got = self.results.get(aid, [])
